@@ -7,10 +7,11 @@ namespace Librfn.Gen
 
 abbrev Mem := BitVec 64 → BitVec 8
 
-/-- one executed call of an external function in the trace a generated definition reports (arguments widened to 64 bits) -/
+/-- one executed call of an external function in the trace a generated definition reports (arguments and returned value widened to 64 bits) -/
 structure ExtCall where
   name : String
   args : List (BitVec 64)
+  ret : BitVec 64        -- what the call returned (an input of the generated definition); 0 for a `void` function
   deriving DecidableEq, Repr
 
 namespace Mem
